@@ -1326,6 +1326,13 @@ class Interp:
                         h(self, node, [len(l) for l in lists])
                 return Tup([Tup([l[i] for l in lists]) for i in range(n)])
             return ListOf(Tup([self.elem_of(a, node) for a in pargs]), one_shot=True)
+        if name == "builtins.map" and len(pargs) == 2:
+            # map(f, xs) == (f(x) for x in xs)
+            fobj, xs = pargs
+            its = self.items_of(xs)
+            if its is not None:
+                return Tup([self.apply(fobj, [x], {}, node, env, fn) for x in its])
+            return ListOf(self.apply(fobj, [self.elem_of(xs, node)], {}, node, env, fn), one_shot=True)
         if name == "builtins.enumerate":
             idx = self.domain.const(self, 0, node)
             h = getattr(self.domain, "index_value", None)
